@@ -117,6 +117,13 @@ Section Traf.
         split; assumption.
   Qed.
 
+End Traf.
+
+Section Aux.
+  Variable E : list N -> list N -> list N.
+  Variable D : list N -> list N -> list N.
+  Variable protfunc : list N -> res (list ssp).
+
   (* (b) *)
   Lemma aux_traf sch key iv cb sb f g sub :
     encrypt_fragment_bytes E D protfunc sch key iv cb sb f = Ok g ->
@@ -195,4 +202,4 @@ Section Traf.
     split; [|split; [reflexivity|exact Hcnt]].
     rewrite Hsizes. apply aux_walk_concat.
   Qed.
-End Traf.
+End Aux.
